@@ -1718,20 +1718,20 @@ where
                         }
                     }
                     _ => {
-                        // Unusual case of multiple groups sharing a name: the backref should try each in turn.
-                        // Lower to alternations of backreferences. Reverse to keep it right-associative: a | (b | (c | d))...
+                        // Unusual case of multiple groups sharing a name. They are in different
+                        // alternatives, so at most one of them has participated, and a backreference
+                        // to a group which has not participated matches the empty string.
+                        // Therefore lower to the catenation of the backreferences.
                         let icase = self.flags.icase;
-                        let backrefs =
+                        ir::Node::Cat(
                             group_indices
                                 .iter()
-                                .rev()
                                 .map(|group_index| ir::Node::BackRef {
                                     group: *group_index + 1,
                                     icase,
-                                });
-                        backrefs
-                            .reduce(|right, left| ir::Node::Alt(Box::new(left), Box::new(right)))
-                            .unwrap()
+                                })
+                                .collect(),
+                        )
                     }
                 };
                 Ok(node)
